@@ -281,3 +281,42 @@ M('c03-log-error-message-in-format-template', 'C03', 'R10', 'falcon/request.py',
 M('c03-python-error-handler-formats-message-as-template', 'C03', 'R10', 'falcon/app.py',
   "        req.log_error(traceback.format_exc())\n",
   "        req.log_error(('Unhandled exception in ' + req.path + ': {}').format(traceback.format_exc()))\n", also=('C04',))
+
+# ---- wave 9: R4 raise-propagation clause and R11 (merge of positional arguments)
+M('c03-after-action-in-finally-sync', 'C03', 'R4', 'falcon/hooks.py',
+  """            sync_responder(self, req, resp, **kwargs)
+            sync_action(req, resp, self, *action_args, **action_kwargs)
+""", """            try:
+                sync_responder(self, req, resp, **kwargs)
+            finally:
+                sync_action(req, resp, self, *action_args, **action_kwargs)
+""")
+M('c03-after-action-in-finally-async', 'C03', 'R4', 'falcon/hooks.py',
+  """            await async_responder(self, req, resp, **kwargs)
+            await async_action(req, resp, self, *action_args, **action_kwargs)
+""", """            try:
+                await async_responder(self, req, resp, **kwargs)
+            finally:
+                await async_action(req, resp, self, *action_args, **action_kwargs)
+""")
+M('c03-before-wrapper-swallows-action-error', 'C03', 'R4', 'falcon/hooks.py',
+  """            sync_action(req, resp, self, kwargs, *action_args, **action_kwargs)
+            sync_responder(self, req, resp, **kwargs)
+""", """            try:
+                sync_action(req, resp, self, kwargs, *action_args, **action_kwargs)
+            except Exception:
+                pass
+            sync_responder(self, req, resp, **kwargs)
+""")
+M('c03-merge-takes-none-keyword-for-missing', 'C03', 'R11', 'falcon/hooks.py',
+  "        if argname not in kwargs:\n            kwargs[argname] = args[i]\n",
+  "        if kwargs.get(argname) is None:\n            kwargs[argname] = args[i]\n")
+M('c03-merge-takes-falsy-keyword-for-missing', 'C03', 'R11', 'falcon/hooks.py',
+  "        if argname not in kwargs:\n            kwargs[argname] = args[i]\n",
+  "        if not kwargs.get(argname):\n            kwargs[argname] = args[i]\n")
+M('c03-merge-overwrites-supplied-keyword', 'C03', 'R11', 'falcon/hooks.py',
+  "        if argname not in kwargs:\n            kwargs[argname] = args[i]\n",
+  "        if argname in kwargs:\n            kwargs[argname] = args[i]\n")
+M('c03-merge-stores-wrong-index', 'C03', 'R11', 'falcon/hooks.py',
+  "            kwargs[argname] = args[i]\n",
+  "            kwargs[argname] = args[i - 1]\n")
